@@ -385,6 +385,12 @@ func (fc *FnCtx) evalSel(e *Expr, env *Env) Val {
 						bi, _ := new(big.Int).SetString(c.Val().ExactString(), 10)
 						return Val{T: bignum(bi), Sort: sInt, Typ: c.Type(), Math: true}
 					}
+					if v, ok := imp.Scope().Lookup(e.Name).(*types.Var); ok && sortOf(v.Type()) != "" {
+						l := &Loc{Region: "K.G." + imp.Name() + "." + e.Name, Sort: sortOf(v.Type()), Typ: v.Type()}
+						r := fc.loadLoc(env.heap, l)
+						r.Typ = v.Type()
+						return r
+					}
 				}
 			}
 		}
